@@ -291,8 +291,14 @@ let cmd_framed () =
       print_endline (String.concat "," (List.rev !outs))
     | _ -> print_endline "BADCASE")
 
+(* ---- probes: argv[2..] = repetition counts -> one hex line per probe read off the grammar (Synth.v) ---- *)
+let cmd_probes () =
+  let ns = List.map (fun a -> n_of_int (int_of_string a)) (List.tl (List.tl (Array.to_list Sys.argv))) in
+  List.iter (fun p -> print_endline (hex (string_of_bytes p))) (M.probes ns)
+
 let () =
   match Sys.argv.(1) with
+  | "probes" -> cmd_probes ()
   | "framed" -> cmd_framed ()
   | "client" -> cmd_client ()
   | "parse" -> cmd_parse ()
